@@ -1,0 +1,64 @@
+//go:build verif
+
+package cachedproducer
+
+// Machine-checked contracts for /verif (read as text by the VC generator; no code).
+//
+// ncalls[f] counts the calls of the function value f (the underlying Close / Drop).
+//@ ghost ncalls[int] int
+//@ const MaxInt = 9223372036854775807
+//@
+//@ funcfield openDB$1.realClose
+//@   modifies ncalls[fnval]
+//@   ghost ncalls[fnval] = old(ncalls[fnval]) + 1
+//@ funcfield openDB$2.realDrop
+//@   modifies ncalls[fnval]
+//@   ghost ncalls[fnval] = old(ncalls[fnval]) + 1
+//@
+//@ inv cacheState cs(c):
+//@   c != nil && c.opened != nil && c.refCounter != nil && c.notDropped != nil &&
+//@   forall(n string, has(c.opened, n) <==> c.refCounter[n] >= 1) &&
+//@   forall(n string, has(c.refCounter, n) ==> c.refCounter[n] >= 1)
+//@
+//@ func openDB$1
+//@   requires c != nil && c.refCounter != nil
+//@   modifies c.refCounter[name], c.opened[name], ncalls[realClose]
+//@   ensures  [over] old(c.refCounter[name]) <= 0 ==> result != nil && ncalls[realClose] == old(ncalls[realClose]) && has(c.opened, name) == old(has(c.opened, name)) && c.refCounter[name] == old(c.refCounter[name]) && has(c.refCounter, name) == old(has(c.refCounter, name))
+//@   ensures  [last] old(c.refCounter[name]) == 1 ==> !has(c.refCounter, name) && !has(c.opened, name) && ncalls[realClose] == old(ncalls[realClose]) + 1
+//@   ensures  [more] old(c.refCounter[name]) > 1 ==> c.refCounter[name] == old(c.refCounter[name]) - 1 && ncalls[realClose] == old(ncalls[realClose]) && has(c.opened, name) == old(has(c.opened, name)) && result == nil
+//@   ensures  [inv] old(cs(c)) ==> cs(c)
+//@
+//@ func openDB$2
+//@   requires c != nil
+//@   modifies c.notDropped[name], ncalls[realDrop]
+//@   ensures  [once] old(c.notDropped[name]) ==> ncalls[realDrop] == old(ncalls[realDrop]) + 1
+//@   ensures  [never] !old(c.notDropped[name]) ==> ncalls[realDrop] == old(ncalls[realDrop])
+//@   ensures  [cleared] !has(c.notDropped, name)
+//@
+//@ func openDB
+//@   requires cs(c) && p != nil && c.refCounter[name] < MaxInt
+//@   modifies c.notDropped[name], c.opened[name], c.refCounter[name], nopen
+//@   ensures  [hit] old(has(c.opened, name)) ==> result0 == old(c.opened[name]) && result1 == nil && c.refCounter[name] == old(c.refCounter[name]) + 1 && nopen == old(nopen)
+//@   ensures  [miss] !old(has(c.opened, name)) ==> nopen == old(nopen) + 1
+//@   ensures  [missok] !old(has(c.opened, name)) && result1 == nil ==> c.refCounter[name] == 1 && has(c.opened, name) && c.opened[name] == result0 && typeis(result0, "*StoreWithFn") && closureof(unbox(result0, "*StoreWithFn").CloseFn, "openDB$1") && closureof(unbox(result0, "*StoreWithFn").DropFn, "openDB$2")
+//@   ensures  [missfail] !old(has(c.opened, name)) && result1 != nil ==> !has(c.opened, name) && c.refCounter[name] == old(c.refCounter[name])
+//@   ensures  [inv] cs(c)
+//@   ensures  [dropflag] c.notDropped[name]
+//@
+//@ func WrapAll
+//@   ensures  fresh(result) && cs(result.cacheState) && result.FullDBProducer == p
+//@ func Wrap
+//@   ensures  fresh(result) && cs(result.cacheState) && result.DBProducer == p
+//@
+//@ func (*DBProducer).OpenDB
+//@   requires p != nil && cs(p.cacheState) && p.DBProducer != nil && p.cacheState.refCounter[name] < MaxInt
+//@   modifies p.cacheState.notDropped[name], p.cacheState.opened[name], p.cacheState.refCounter[name], nopen
+//@   ensures  [hit] old(has(p.cacheState.opened, name)) ==> result0 == old(p.cacheState.opened[name]) && result1 == nil && nopen == old(nopen)
+//@   ensures  [miss] !old(has(p.cacheState.opened, name)) ==> nopen == old(nopen) + 1
+//@   ensures  [inv] cs(p.cacheState)
+//@ func (*AllDBProducer).OpenDB
+//@   requires p != nil && cs(p.cacheState) && p.FullDBProducer != nil && p.cacheState.refCounter[name] < MaxInt
+//@   modifies p.cacheState.notDropped[name], p.cacheState.opened[name], p.cacheState.refCounter[name], nopen
+//@   ensures  [hit] old(has(p.cacheState.opened, name)) ==> result0 == old(p.cacheState.opened[name]) && result1 == nil && nopen == old(nopen)
+//@   ensures  [miss] !old(has(p.cacheState.opened, name)) ==> nopen == old(nopen) + 1
+//@   ensures  [inv] cs(p.cacheState)
